@@ -216,7 +216,7 @@ class C02(TreeCheck):
     obligations = [("main", "L2BndS", "parseBlocks_bounds"), ("main", "C01a", "C01_ordered"), ("main", "NoPanicAll", "parseBlocks_no_panic"),
                    ("main", "BlockSpans", "parseBlocks_block_spans"), ("main", "BlockSpans", "parseFull_block_spans"),
                    ("main", "InlineSpans", "parseInlines_spans"), ("main", "InlineSpans", "parseInlines_spans_reduction"), ("main", "InlineSpans", "parseInlines_spans_literal_false"),
-                   ("main", "SpanHyp", "entriesOKX_eq"), ("main", "SpanHyp", "rewrite_roots_inline_spans"), ("main", "EntriesOK", "parseBlocks_entries_basic"), ("main", "C02Structure", "C02_of_rootIndent_and_boundaries"), ("main", "C02Structure", "C02_structure_rootIndent_partial"), ("main", "DefSpans", "defSpans_all"), ("main", "C02Boundaries", "C02_boundaries"), ("main", "C02Boundaries", "C02_boundaries_strong"), ("main", "C02Boundaries", "C02_of_structure"), ("main", "ComposeC02", "C02_of_structure_and_boundaries"), ("main", "ComposeC02", "C02_structure_partial"), ("main", "ComposeSpans2", "parseBlocks_inline_spans"), ("main", "ComposeSpans2", "parseBlocks_entriesOKroots"), ("main", "ComposeSpans2", "parseBlocks_paraTail"), ("main", "ComposeSpans", "parseBlocks_inline_spans_partial"), ("main", "ComposeSpans", "parseBlocks_entriesOKroots_partial"), ("main", "Total", "parseBlocks_total")]
+                   ("main", "SpanHyp", "entriesOKX_eq"), ("main", "SpanHyp", "rewrite_roots_inline_spans"), ("main", "EntriesOK", "parseBlocks_entries_basic"), ("main", "C02Full", "C02_full"), ("main", "C02Full", "C02_structure"), ("main", "RootIndentDrv", "rootIndent_all"), ("main", "C02Structure", "C02_of_rootIndent_and_boundaries"), ("main", "C02Structure", "C02_structure_rootIndent_partial"), ("main", "DefSpans", "defSpans_all"), ("main", "C02Boundaries", "C02_boundaries"), ("main", "C02Boundaries", "C02_boundaries_strong"), ("main", "C02Boundaries", "C02_of_structure"), ("main", "ComposeC02", "C02_of_structure_and_boundaries"), ("main", "ComposeC02", "C02_structure_partial"), ("main", "ComposeSpans2", "parseBlocks_inline_spans"), ("main", "ComposeSpans2", "parseBlocks_entriesOKroots"), ("main", "ComposeSpans2", "parseBlocks_paraTail"), ("main", "ComposeSpans", "parseBlocks_inline_spans_partial"), ("main", "ComposeSpans", "parseBlocks_entriesOKroots_partial"), ("main", "Total", "parseBlocks_total")]
     proj = staticmethod(proj_spans)
     what = "span structure"
 
@@ -230,7 +230,7 @@ class C02(TreeCheck):
                     for i in range(len(a)) if is_obs(a[i]) and b[i] != "1"]
         js.append(Job("entry conditions of the inline-span theorem on the implementation's pre-inline trees", js[0].cases, corr=hyp))
         return js
-    assumptions = ["partial: proved for every input: every block span is valid, lies inside its parent and consecutive block children are ordered and disjoint, root starts are non-negative (parseFull_block_spans), and the ends of blocks and inline entries are bounded by the line read so far; inline level: for every leaf block whose entry list satisfies the executable condition entriesOK (entries valid, ordered, inside the block; only Unparsed/Indent entries; Indent entries one byte wide and at most 3 columns; every entry but the last non-empty and ending in a line ending; the byte after the last entry is blank or past the source), every inline node produced by parseInlines (after emphasis processing and link surgery) has a valid span inside its parent, siblings ordered and disjoint (InlineSpans.parseInlines_spans, lifted to everything Rewrite does to a root block in SpanHyp.rewrite_roots_inline_spans); the run evaluates that condition on the implementation's own pre-inline trees, so the theorem applies to each of them given the tie of the inline parser; for arbitrary (adversarial) entry lists the statement is false, witness proved (parseInlines_spans_literal_false); the proof found defect D23 (a Text child past its LinkDestination parent), repaired in /repo (8f64b82); that the block layer always produces entriesOK entry lists is proved for every input (ComposeSpans2.parseBlocks_entriesOKroots), so for every input and matcher every inline node produced by Rewrite has a valid span inside its parent with ordered, disjoint siblings (ComposeSpans2.parseBlocks_inline_spans): the span-structure part of the property holds at both levels for every input; the character-boundary clause is proved for every valid UTF-8 input (C02Boundaries.C02_boundaries: every span boundary of every block and inline node, definition parts and info-string children included, is a UTF-8 boundary of the root's Source); Props.C02_statement follows from these and ONE executable residual fact (C02Structure.C02_of_rootIndent_and_boundaries): the bytes of a root's Source before its block's start are spaces or tabs (rootIndentRoots), which holds on every input tried, is part of the formal statement evaluated on the implementation's trees in every run, and is the only part not yet proved (the order of a definition's parts, the other residual of ComposeC02, is proved: DefSpans.defSpans_all); that and the character-boundary clause are decided by the correspondence, the span oracle and the formal statement evaluated on the implementation's trees"]
+    assumptions = ["full on the model: C02Full.C02_full = Props.C02_statement: for every input and every root block of parseFull, the root's block ends at the end of its Source and is preceded only by spaces/tabs, every block and inline span is valid, lies inside its parent, siblings are ordered and disjoint, and for valid UTF-8 input every span boundary lies on a character boundary; composed from BlockSpans, InlineSpans/SpanHyp/ComposeSpans2, C13All, DefSpans, RootIndentDrv and C02Boundaries", "the parts: proved for every input: every block span is valid, lies inside its parent and consecutive block children are ordered and disjoint, root starts are non-negative (parseFull_block_spans), and the ends of blocks and inline entries are bounded by the line read so far; inline level: for every leaf block whose entry list satisfies the executable condition entriesOK (entries valid, ordered, inside the block; only Unparsed/Indent entries; Indent entries one byte wide and at most 3 columns; every entry but the last non-empty and ending in a line ending; the byte after the last entry is blank or past the source), every inline node produced by parseInlines (after emphasis processing and link surgery) has a valid span inside its parent, siblings ordered and disjoint (InlineSpans.parseInlines_spans, lifted to everything Rewrite does to a root block in SpanHyp.rewrite_roots_inline_spans); the run evaluates that condition on the implementation's own pre-inline trees, so the theorem applies to each of them given the tie of the inline parser; for arbitrary (adversarial) entry lists the statement is false, witness proved (parseInlines_spans_literal_false); the proof found defect D23 (a Text child past its LinkDestination parent), repaired in /repo (8f64b82); that the block layer always produces entriesOK entry lists is proved for every input (ComposeSpans2.parseBlocks_entriesOKroots), so for every input and matcher every inline node produced by Rewrite has a valid span inside its parent with ordered, disjoint siblings (ComposeSpans2.parseBlocks_inline_spans): the span-structure part of the property holds at both levels for every input; the character-boundary clause is proved for every valid UTF-8 input (C02Boundaries.C02_boundaries: every span boundary of every block and inline node, definition parts and info-string children included, is a UTF-8 boundary of the root's Source); the two residual facts of ComposeC02 are proved for every input (DefSpans.defSpans_all: order of a definition's parts; RootIndentDrv.rootIndent_all: only spaces/tabs before a root's block inside its Source); that and the character-boundary clause are decided by the correspondence, the span oracle and the formal statement evaluated on the implementation's trees"]
 
 
 reg(C02("C02"))
